@@ -129,6 +129,15 @@ type c08Monitor struct {
 	violated bool
 }
 
+// loopExit marks signatures of block-balance violations in programs that use break / continue (the
+// open finding is specifically about those two statements; the same imbalance anywhere else is new).
+func (mo *c08Monitor) loopExit() string {
+	if strings.Contains(mo.src, "break") || strings.Contains(mo.src, "continue") {
+		return ":with-break-continue"
+	}
+	return ""
+}
+
 func (mo *c08Monitor) fail(sig, format string, args ...any) {
 	mo.violated = true
 	mo.res.Violate(sig, "%s\n  src=%q\n  decision vector=%q (%s)", fmt.Sprintf(format, args...), mo.src, mo.vec, mo.where)
@@ -169,6 +178,12 @@ func (mo *c08Monitor) step(s *ds.VerifStep) bool {
 		}
 	case "push.last":
 		// needs an earlier pop on this path; the VM reports it as an error itself
+	case "halt":
+		// falling off the end of a program: every block and template hole opened on this path is closed
+		if s.BlockIndex != 0 || s.FstrBlockIndex != 0 {
+			mo.fail("open-blocks-at-end"+mo.loopExit(), "the program reaches its end (halt at %d) with %d block(s) and %d template hole(s) still open", s.OpIndex, s.BlockIndex, s.FstrBlockIndex)
+			return true
+		}
 	}
 	switch op.Name {
 	case "dice.setTimes", "dice.setKeepLow", "dice.setKeepHigh", "dice.setDropLow", "dice.setDropHigh", "dice.setMin", "dice.setMax", "dice", "push.def_expr":
@@ -189,7 +204,7 @@ func (mo *c08Monitor) step(s *ds.VerifStep) bool {
 	cur := [2]int{s.BlockIndex, s.FstrBlockIndex}
 	if prev, ok := mo.depthAt[key]; ok {
 		if prev != cur {
-			mo.fail("block-depth-differs", "instruction %d (%s) is reached with %d open blocks / %d open holes, earlier with %d / %d", s.OpIndex, op.Name, cur[0], cur[1], prev[0], prev[1])
+			mo.fail("block-depth-differs"+mo.loopExit(), "instruction %d (%s) is reached with %d open blocks / %d open holes, earlier with %d / %d", s.OpIndex, op.Name, cur[0], cur[1], prev[0], prev[1])
 			return true
 		}
 	} else {
